@@ -145,12 +145,13 @@ def run(ctx):
                 ck.ob("C05-R2", tx.fn, "mapping-removal-emits-only-Released-of-its-own-outputs", tx.kind == "RELEASE" and tx.lists == ["MO"], site=tx.site())
     R = ktloops.remove_mapping_analysis(ctx, K)
     kept = [oc for val, oc, site in R.rows if val.get("used") is True]
-    ck.ob("C05-R2", MOD + "remove_mapping", "never-lifts-a-key-a-remaining-mapping-outputs", not R.problems and kept and all(oc == "keep" for oc in kept),
-          detail="; ".join(R.problems)[:200] or None)
-    # the scans exclude "the mapping being removed" by index (j != i): that is only the right mapping while
-    # active_mappings is untouched, i.e. the removal itself must come after the complete sweep
-    ck.ob("C05-R2", MOD + "remove_mapping", "`other-mappings`-means-all-but-the-removed-one(active_mappings-untouched-until-the-sweep-is-complete)", R.am_removed_after_sweep,
-          detail=None if R.am_removed_after_sweep else "active_mappings is modified before/inside the sweep: index i no longer names the mapping being removed when the still_used/still_shadowed scans run")
+    pr = R.problems + R.role_problems["used"]
+    ck.ob("C05-R2", MOD + "remove_mapping", "never-lifts-a-key-a-remaining-mapping-outputs", not pr and kept and all(oc == "keep" for oc in kept),
+          detail="; ".join(pr)[:200] or None)
+    # the still-used scan must see EVERY remaining mapping: skipping index i is only right while the mapping being
+    # removed is still at index i; once it has been taken out the scan has to look at all of them
+    ck.ob("C05-R2", MOD + "remove_mapping", "still-used-scan-sees-every-remaining-mapping", R.covers("used") in ("exact", "superset"),
+          detail="removal %s the sweep, scan %s index i" % (R.am_removal, "skips" if R.excl.get("used") else "does not skip"))
     nr = ctx.body(NR)
     swept = 0
     for h in sorted(nr.loops()):
